@@ -19,5 +19,6 @@ INVARIANT LawResizeSpan
 INVARIANT ImplAdjust
 INVARIANT LawAdjustNone
 INVARIANT LawStepOutcome
+INVARIANT LawWFillOffs
 PROPERTY Terminates
 CHECK_DEADLOCK FALSE
